@@ -8,7 +8,11 @@ import (
 	"flag"
 	"fmt"
 	"math/rand"
+	"os"
+	"runtime"
 	"sort"
+	"sync"
+	"sync/atomic"
 	"time"
 	_ "time/tzdata" // zone rules embedded: DST locations work offline
 
@@ -51,6 +55,8 @@ func epochs(rng *rand.Rand) []int64 {
 		ms(2100, 6, 1, 12, 0, 0, 1, time.UTC),
 		ms(2150, 1, 1, 0, 0, 0, 0, time.UTC) + rng.Int63n(86400000),
 		time.Now().UnixNano() / 1000000,
+		ms(2500, 7, 4, 3, 2, 1, 500, time.UTC), // beyond what int64 nanoseconds can express (2262)
+		ms(9000, 1, 1, 0, 0, 0, 0, time.UTC),   // the latest epoch whose dates keep four-digit years
 		ms(2000, 1, 1, 0, 0, 0, 0, time.UTC) + rng.Int63n(ms(2200, 1, 1, 0, 0, 0, 0, time.UTC)-ms(2000, 1, 1, 0, 0, 0, 0, time.UTC)),
 	}
 }
@@ -127,16 +133,52 @@ func small(v int64) int {
 	return int(v)
 }
 
-func guard(w *tr.W, what string, f func()) {
+// sink receives trace events: the trace writer or a goroutine's private buffer.
+type sink interface{ Emit(tr.E) }
+
+type bufSink struct{ evs []tr.E }
+
+func (b *bufSink) Emit(e tr.E) { b.evs = append(b.evs, e) }
+
+// progress / inCall feed the watchdog: a codec call that never returns is reported as a `hang` event
+// (which the specification cannot explain) instead of ending the run by a timeout.
+var progress, inCall int64
+
+func guard(w sink, what string, f func()) {
 	defer func() {
 		if p := recover(); p != nil {
 			w.Emit(tr.E{"ev": "panic", "what": what, "msg": fmt.Sprint(p)})
 		}
+		atomic.AddInt64(&inCall, -1)
+		atomic.AddInt64(&progress, 1)
 	}()
+	atomic.AddInt64(&inCall, 1)
 	f()
 }
 
-func doID(w *tr.W, l layout, id int64) {
+func watchdog(w *tr.W) {
+	last, idle := int64(-1), 0
+	for {
+		time.Sleep(2 * time.Second)
+		p := atomic.LoadInt64(&progress)
+		if p == last && atomic.LoadInt64(&inCall) > 0 {
+			idle++
+		} else {
+			idle = 0
+		}
+		last = p
+		if idle >= 4 {
+			// the main goroutine is inside a codec call and has not come back for 8 s: it is not
+			// writing to the trace, so the watchdog may
+			w.Emit(tr.E{"ev": "hang", "what": "codec call does not return"})
+			w.Close()
+			fmt.Println("hang")
+			os.Exit(0)
+		}
+	}
+}
+
+func doID(w sink, l layout, id int64) {
 	guard(w, "fields", func() {
 		ts, node, step := snowflake.IDFields(id)
 		pms, pnode, pstep := snowflake.IDParse(id)
@@ -148,17 +190,46 @@ func doID(w *tr.W, l layout, id int64) {
 	})
 }
 
-func doDate(w *tr.W, l layout, id int64) {
+func doDate(w sink, l layout, id int64) {
 	guard(w, "date", func() {
 		cn := snowflake.CnStyle(id)
-		back, err := snowflake.FromChStyle(cn)
-		abs := id>>l.tshift() + l.epoch
-		w.Emit(tr.E{"ev": "date", "id": limbs(id), "cn": tr.Str(cn), "back": limbs(back), "err": err != nil,
-			"nsovf": abs > nsEnd})
+		emitDate(w, l, id, cn)
 	})
 }
 
-func doPair(w *tr.W, a, b int64) {
+// emitDate decodes the date form twice (the same string, like a caller that parses a stored value
+// again) and writes the event.
+func emitDate(w sink, l layout, id int64, cn string) {
+	back, err := snowflake.FromChStyle(cn)
+	back2, err2 := snowflake.FromChStyle(cn)
+	abs := id>>l.tshift() + l.epoch
+	w.Emit(tr.E{"ev": "date", "id": limbs(id), "cn": tr.Str(cn), "back": limbs(back), "err": err != nil,
+		"back2": limbs(back2), "err2": err2 != nil, "nsovf": abs > nsEnd})
+}
+
+// doDatesRetained: the strings CnStyle returned are kept AS RETURNED while all the other ids are
+// rendered, and only then decoded and written: what a call returned must still be what it returned
+// (a date form built in a reused buffer would be overwritten by the later calls).
+func doDatesRetained(w sink, l layout, ids []int64) {
+	cns := make([]string, len(ids))
+	ok := make([]bool, len(ids))
+	for i, id := range ids {
+		i, id := i, id
+		guard(w, "date", func() {
+			cns[i] = snowflake.CnStyle(id)
+			ok[i] = true
+		})
+	}
+	for i, id := range ids {
+		if !ok[i] {
+			continue
+		}
+		i, id := i, id
+		guard(w, "date", func() { emitDate(w, l, id, cns[i]) })
+	}
+}
+
+func doPair(w sink, a, b int64) {
 	guard(w, "pair", func() {
 		var fa, fb fields
 		fa.ts, fa.node, fa.step = snowflake.IDFields(a)
@@ -284,11 +355,11 @@ func instant(rng *rand.Rand, absMs int64) time.Time {
 	return instantIn(rng, absMs, zones[rng.Intn(len(zones))])
 }
 
-func doRange(w *tr.W, rng *rand.Rand, l layout, offB, offE int64) {
+func doRange(w sink, rng *rand.Rand, l layout, offB, offE int64) {
 	doRangeAt(w, instant(rng, l.epoch+offB), instant(rng, l.epoch+offE))
 }
 
-func doRangeAt(w *tr.W, b, e time.Time) {
+func doRangeAt(w sink, b, e time.Time) {
 	if e.Before(b) {
 		e = b
 	}
@@ -307,6 +378,58 @@ func doRangeAt(w *tr.W, b, e time.Time) {
 	}
 }
 
+// doTogether: G goroutines run IDFields/IDParse/IDParseEx, CnStyle/FromChStyle and the range
+// functions on their own share of the ids at the same time; each records into its own buffer.
+func doTogether(w sink, rng *rand.Rand, l layout, ids []int64, G int) {
+	bufs := make([]*bufSink, G)
+	seeds := make([]int64, G)
+	for g := range bufs {
+		bufs[g] = &bufSink{}
+		seeds[g] = rng.Int63()
+	}
+	var ready int32
+	var wg sync.WaitGroup
+	for g := 0; g < G; g++ {
+		wg.Add(1)
+		go func(g int) {
+			defer wg.Done()
+			r := rand.New(rand.NewSource(seeds[g]))
+			b := bufs[g]
+			atomic.AddInt32(&ready, 1)
+			for n := 0; atomic.LoadInt32(&ready) < int32(G); n++ {
+				if n%2000 == 1999 {
+					runtime.Gosched()
+				}
+			}
+			var mine []int64
+			for k := 0; k < 40; k++ {
+				mine = append(mine, ids[r.Intn(len(ids))])
+			}
+			if g%2 == 0 {
+				doDatesRetained(b, l, mine)
+			}
+			for _, id := range mine {
+				doID(b, l, id)
+				if g%2 == 1 {
+					doDate(b, l, id)
+				}
+				ob := id >> l.tshift()
+				oe := ob + int64(r.Intn(5000))
+				if oe > l.tsMax() {
+					oe = l.tsMax()
+				}
+				doRange(b, r, l, ob, oe)
+			}
+		}(g)
+	}
+	wg.Wait()
+	for _, b := range bufs {
+		for _, e := range b.evs {
+			w.Emit(e)
+		}
+	}
+}
+
 func main() {
 	out := flag.String("out", "codec.ndjson", "trace file")
 	seed := flag.Int64("seed", 1, "seed")
@@ -319,6 +442,7 @@ func main() {
 	rng := rand.New(rand.NewSource(*seed))
 	w := tr.Create(*out)
 	w.NoSync = true
+	go watchdog(w)
 	nlay := 0
 	for _, nb := range []uint8{10, 9, 8} {
 		for _, low := range []bool{false, true} {
@@ -327,14 +451,26 @@ func main() {
 			if *nep < len(eps) {
 				// always keep the two ends of the property's epoch range in play
 				eps = append(eps[:*nep-1], []int64{ms(2000, 1, 1, 0, 0, 0, 0, time.UTC), 1609430400000,
-					ms(2100, 6, 1, 12, 0, 0, 1, time.UTC)}[nlay%3])
+					ms(2100, 6, 1, 12, 0, 0, 1, time.UTC), ms(2500, 7, 4, 3, 2, 1, 500, time.UTC),
+					ms(9000, 1, 1, 0, 0, 0, 0, time.UTC)}[nlay%5])
 			}
 			for _, ep := range eps {
 				l := layout{ep, nb, low}
 				restore := snowflake.VerifSetConfig(l.epoch, l.nb, l.low)
+				viaSetup := nlay%2 == 1 && ep < nsEnd
+				if viaSetup {
+					// the public path: Setup(options...) on top of the package defaults (UseEpoch goes
+					// through int64 nanoseconds, so only epochs it can express take it)
+					snowflake.VerifSetConfig(1609430400000, 10, false)
+					opts := []snowflake.Option{snowflake.UseEpoch(time.UnixMilli(ep)), snowflake.UseNodeMode(snowflake.NodeBitsMode(nb))}
+					if low {
+						opts = append(opts, snowflake.NodeAtLowest())
+					}
+					snowflake.Setup(opts...)
+				}
 				// one trace per function group, so that a rejection in one group does not hide the others
 				reset := func(grp string) {
-					w.Emit(tr.E{"ev": "reset", "nb": int(nb), "low": low, "epoch": limbs(ep), "grp": grp})
+					w.Emit(tr.E{"ev": "reset", "nb": int(nb), "low": low, "epoch": limbs(ep), "grp": grp, "setup": viaSetup})
 				}
 				nlay++
 				// ids = timestamp x low bits, plus raw ones
@@ -357,9 +493,17 @@ func main() {
 					doID(w, l, id)
 				}
 				reset("date")
-				for _, id := range ids {
-					doDate(w, l, id)
+				if nlay%2 == 0 {
+					doDatesRetained(w, l, ids)
+				} else {
+					for _, id := range ids {
+						doDate(w, l, id)
+					}
 				}
+				// the pure functions called by several goroutines at once (released by a spin barrier),
+				// each on its own ids and intervals: a result must not depend on what others compute
+				reset("together")
+				doTogether(w, rng, l, ids, 4+2*(nlay%3))
 				reset("order")
 				// pairs: neighbours in the sorted order, field-adjacent ids, random pairs
 				sorted := append([]int64(nil), ids...)
